@@ -52,8 +52,8 @@ def main():
                 continue
             env = dict(os.environ, EMBOSS_REPO=repo, VERIF_SEED=ns.seed)
             if ns.pytest:
-                r = subprocess.run(["/venv/bin/python", "-m", "pytest", "-q", "-x", "-p", "no:cacheprovider",
-                                    "--timeout=900"], cwd=repo, env=env, capture_output=True, text=True)
+                r = subprocess.run(["/venv/bin/python", "-m", "pytest", "-q", "-p", "no:cacheprovider",
+                                    "--timeout=900", "--continue-on-collection-errors"], cwd=repo, env=env, capture_output=True, text=True)
                 tail = r.stdout.strip().splitlines()[-1] if r.stdout.strip() else ""
                 print("MUTANT %s: pinned suite rc=%d %s" % (m["name"], r.returncode, tail))
             for chk in m["checks"]:
